@@ -15,6 +15,7 @@ theorem inst_iff_den : ∀ (n : Nat) (t : Ty) (v : Val), t.w ≤ n → Ty.WF cfg
     cases t with
     | any => unfold inst Den; simp
     | unit => unfold inst Den; simp
+    | callable p r k => unfold inst Den; simp
     | undef => unfold inst Den; cases v <;> simp
     | dflt => unfold inst Den; cases v <;> simp
     | scalar => unfold inst Den; exact isScalarVal_iff v
